@@ -51,6 +51,7 @@ _PRE = [
     "surrogates: dict[str, sympy.Symbol] = dict(zip(_surr, cast(list[sympy.Symbol], list_of_symbols(_surr)), strict=True))",
     "symbols: dict[str, sympy.Symbol | sympy.Expr] = variables | parameters | data",
 ]
+_SYMTAB_MERGED = "symbols: dict[str, sympy.Symbol | sympy.Expr] = variables | parameters | data | surrogates"
 _CONV_IF = (
     "if (expr := fn_to_sympy(v.fn, origin=k, model_args=[symbols[i] for i in v.args])) is None:\n"
     "    msg = f\"Unable to parse {what} '{{k}}'\"\n"
@@ -156,6 +157,10 @@ def extract_facts() -> dict[str, str]:
                 off = len(_PRE)
                 if b[:off] == _PRE:
                     facts["symtab"] = "SymVarsParsData"
+                elif b[:off] == _PRE[:-1] + [_SYMTAB_MERGED]:
+                    # the surrogate output symbols merged into the translation table (a regression: Coq
+                    # theorem C12_surrogate_merged_table_refuted)
+                    facts["symtab"] = "SymVarsParsDataSurr"
                 if b[off : off + len(der)] == der:
                     facts["order"] = tag
                 off += len(der)
@@ -287,6 +292,57 @@ def desc_from_json(d: Any) -> Any:
     return d
 
 
+class _WarningCapture:
+    """Collect the records the implementation's loggers emit (harness.main disables logging globally;
+    the fallback WARNING is part of the property: 'falls back with a warning')."""
+
+    def __enter__(self):
+        import logging
+
+        self.records: list[str] = []
+        cap = self
+
+        class H(logging.Handler):
+            def emit(self, record):  # noqa: ANN001
+                if record.levelno >= logging.WARNING:
+                    cap.records.append(record.getMessage())
+
+        self._h = H()
+        self._lg = logging.getLogger("mxlpy")
+        self._old = (logging.root.manager.disable, self._lg.propagate, self._lg.level)
+        logging.disable(logging.NOTSET)
+        self._lg.propagate = False
+        self._lg.addHandler(self._h)
+        return self
+
+    def __exit__(self, *exc):
+        import logging
+
+        self._lg.removeHandler(self._h)
+        self._lg.propagate = self._old[1]
+        logging.disable(self._old[0])
+        return False
+
+
+def _num_matrix(mat) -> list[list[float]] | None:
+    """entries as floats, or None if an entry is not a number (a SymPy expression left by lambdify)."""
+    import numbers
+
+    rows = []
+    for row in mat.tolist():
+        out = []
+        for v in row:
+            if not isinstance(v, numbers.Real):
+                try:
+                    if getattr(v, "free_symbols", None):
+                        return None
+                except Exception:  # noqa: BLE001
+                    return None
+            out.append(float(v))
+        rows.append(out)
+    return rows
+
+
 def observe(desc: dict, t: int, x: list[int], p2: dict[int, int] | None) -> dict:
     """Run the implementation on one model at one point.  Never raises for modelled outcomes."""
     import sympy
@@ -301,14 +357,16 @@ def observe(desc: dict, t: int, x: list[int], p2: dict[int, int] | None) -> dict
     names = [c12_gen.nm(v) for v in out["inputs"]["vars"]]
     xf = [float(v) for v in x]
 
-    def sym_at(sm, pv):
+    def sym_at(sm, pv, ext=None):
         vs = list(sm.variables.values())
         ps = list(sm.parameters.values())
-        f_eqs = sympy.lambdify([vs, ps], sm.eqs, cse=False)
-        f_jac = sympy.lambdify([vs, ps], sm.jacobian(), cse=False)
+        es = [sm.external[k] for k in (ext or {})]
+        f_eqs = sympy.lambdify([vs, ps, es], sm.eqs, cse=False)
+        f_jac = sympy.lambdify([vs, ps, es], sm.jacobian(), cse=False)
         vals = [pv[k] for k in sm.parameters]
-        ev = [float(v) for v in f_eqs(xf, vals)]
-        jv = [[float(v) for v in row] for row in f_jac(xf, vals).tolist()]
+        evals = [float(v) for v in (ext or {}).values()]
+        ev = [float(v) for v in f_eqs(xf, vals, evals)]
+        jv = [[float(v) for v in row] for row in f_jac(xf, vals, evals).tolist()]
         return ev, jv
 
     try:
@@ -322,6 +380,18 @@ def observe(desc: dict, t: int, x: list[int], p2: dict[int, int] | None) -> dict
             # returned equations mention symbols that are neither variables nor parameters of the
             # symbolic model: they cannot be evaluated at "a state and parameter setting"
             out["sym"] = ("stray", stray, [str(e) for e in sm.eqs])
+        elif ext_used := sorted({str(x) for e in sm.eqs for x in sympy.sympify(e).free_symbols if x in set(sm.external.values())}):
+            # the equations mention EXTERNAL symbols (surrogate outputs / data): free constants to the
+            # symbolic model.  Evaluate them with every such symbol bound to the number the numeric
+            # model computes for it at this point -- the oracle then compares values and Jacobian
+            try:
+                num = m.get_args(dict(zip(names, xf, strict=True)), time=float(t))
+                ev, jv = sym_at(sm, m.get_parameter_values(), {k: float(num[k]) for k in ext_used})
+                out["sym"] = ("external", ext_used, [str(e) for e in sm.eqs], ev, jv, {k: float(num[k]) for k in ext_used})
+            except _Timeout:
+                raise
+            except Exception as e:  # noqa: BLE001
+                out["sym"] = ("external", ext_used, [str(e_) for e_ in sm.eqs], None, None, {})
         else:
             ev, jv = sym_at(sm, m.get_parameter_values())
             out["sym"] = ("ok", ev, jv)
@@ -331,7 +401,9 @@ def observe(desc: dict, t: int, x: list[int], p2: dict[int, int] | None) -> dict
         out["sym"] = ("err", _kind(e))
     # the simulator's closure
     try:
-        sim = Simulator(m, integrator=partial(Scipy, method="BDF"), use_jacobian=True)
+        with _WarningCapture() as cap:
+            sim = Simulator(m, integrator=partial(Scipy, method="BDF"), use_jacobian=True)
+        out["warnings"] = list(cap.records)
         if getattr(sim, "_time_shift", None) is not None:
             raise c12_gen.InputAssumptionBroken("a freshly constructed Simulator has a time shift")
         jf = sim.integrator.jacobian
@@ -340,7 +412,8 @@ def observe(desc: dict, t: int, x: list[int], p2: dict[int, int] | None) -> dict
             out["clo"] = ("nojac",)
         else:
             try:
-                out["clo"] = ("mat", [[float(v) for v in row] for row in jf(float(t), xf).tolist()])
+                rows = _num_matrix(jf(float(t), xf))
+                out["clo"] = ("mat", rows) if rows is not None else ("symbolic", str(jf(float(t), xf).tolist())[:160])
             except _Timeout:
                 raise
             except Exception as e:  # noqa: BLE001
@@ -366,7 +439,8 @@ def observe(desc: dict, t: int, x: list[int], p2: dict[int, int] | None) -> dict
             upd["clo"] = ("nojac",)
         else:
             try:
-                upd["clo"] = ("mat", [[float(v) for v in row] for row in jf(float(t), xf).tolist()])
+                rows = _num_matrix(jf(float(t), xf))
+                upd["clo"] = ("mat", rows) if rows is not None else ("symbolic", str(jf(float(t), xf).tolist())[:160])
             except _Timeout:
                 raise
             except Exception as e:  # noqa: BLE001
@@ -420,7 +494,12 @@ def judge(desc: dict, obs: dict) -> tuple[list[str], list[str]]:
             (known if stale_ok else bad).append(msg)
 
     def check_clo(clo, ex_jac, sym, label, *, stale_ok: bool) -> None:
-        if clo[0] == "ctor":
+        if clo[0] == "symbolic":
+            bad.append(
+                f"{label}: the simulator's Jacobian function returns a matrix with entries that are not numbers ({clo[1]}): "
+                "a symbol of the equations is not bound by the lambdified function (every integrator that calls it dies with TypeError)"
+            )
+        elif clo[0] == "ctor":
             bad.append(f"{label}: Simulator(use_jacobian=True) raised {clo[1]}: {clo[2]} instead of falling back")
         elif clo[0] == "err":
             bad.append(f"{label}: the simulator's Jacobian function raised {clo[1]}: {clo[2]}")
@@ -432,6 +511,24 @@ def judge(desc: dict, obs: dict) -> tuple[list[str], list[str]]:
 
     if obs["sym"][0] == "err" and conv:
         bad.append(f"a convertible model (kind {desc['kind']}) is refused: {obs['sym'][1]}")
+    surr_used = c12_gen.uses_surrogate(desc)
+    if obs["sym"][0] == "external":
+        # equations over external symbols (surrogate outputs / data), evaluated with every external symbol
+        # bound to the number the numeric model computes for it at this point
+        _, ext, eqs_s, ev, jv, _vals = obs["sym"]
+        what = "surrogate output(s)" if set(map(c12_gen.un, ext)) & c12_gen.surrogate_outputs(desc) else "external symbol(s)"
+        if ev is None:
+            bad.append(f"to_symbolic_model returns equations {eqs_s} over the {what} {ext} that cannot be evaluated")
+        else:
+            check_sym(("ok", ev, jv), obs["exact_rhs"], obs["exact_jac"],
+                      f"to_symbolic_model converts a model that depends on the {what} {ext} and treats them as free constants (equations {eqs_s})", stale_ok=False)
+    if surr_used and obs["clo"][0] == "nojac" and not obs.get("warnings"):
+        bad.append("Simulator(use_jacobian=True) fell back to running without Jacobian on a model with a surrogate WITHOUT logging a warning")
+    if not surr_used and obs["sym"][0] == "err" and obs["clo"][0] == "nojac" and not obs.get("warnings"):
+        bad.append("Simulator(use_jacobian=True) fell back to running without Jacobian WITHOUT logging a warning")
+    if surr_used and obs["sym"][0] == "ok":
+        # (the comparison with the exact right-hand side / derivative below gives the numbers)
+        bad.append(f"a model that depends on a surrogate (kind {desc['kind']}) is converted instead of refused")
     if obs["sym"][0] == "stray":
         bad.append(
             f"to_symbolic_model returns equations {obs['sym'][2]} that mention {obs['sym'][1]}, which are neither variables nor "
@@ -467,6 +564,7 @@ def _exact(vals) -> list[Fraction] | None:
 
 def coq_case(inputs: dict, t: int, x: list[int], sym, clo, rates, rhs) -> str | None:
     """Gallina literal of one case, or None if a value is too large to be certainly exact."""
+    extra_point: list = []
     try:
         if sym[0] == "ok":
             ev = _exact(sym[1])
@@ -474,12 +572,21 @@ def coq_case(inputs: dict, t: int, x: list[int], sym, clo, rates, rhs) -> str | 
             if ev is None or any(r is None for r in jv):
                 return None
             c_sym = f"(ObsVals {c12_gen.c_qlist(ev)} {c12_gen.c_qmat(jv)})"
-        elif sym[0] == "stray":
+        elif sym[0] == "stray" or (sym[0] == "external" and sym[3] is None):
             c_sym = "(ObsErr ErrUnmodelled)"
+        elif sym[0] == "external":
+            ev = _exact(sym[3])
+            jv = [_exact(r) for r in sym[4]]
+            extra_point = [(c12_gen.un(k), common.to_fraction(v)) for k, v in sym[5].items()]
+            if ev is None or any(r is None for r in jv) or any(abs(q) >= BIG for _, q in extra_point):
+                return None
+            c_sym = f"(ObsVals {c12_gen.c_qlist(ev)} {c12_gen.c_qmat(jv)})"
         else:
             c_sym = f"(ObsErr {c12_gen.c_err(sym[1])})"
         if clo[0] == "nojac":
             c_clo = "ObsNoJac"
+        elif clo[0] == "symbolic":
+            c_clo = "(ObsCloErr ErrName)"  # an unbound name: the entry is not a number (SymModel.eval_py)
         elif clo[0] == "mat":
             rows = [_exact(r) for r in clo[1]]
             if any(r is None for r in rows):
@@ -494,6 +601,7 @@ def coq_case(inputs: dict, t: int, x: list[int], sym, clo, rates, rhs) -> str | 
     except ValueError:
         return None
     point = [(v, Fraction(xi)) for v, xi in zip(inputs["vars"], x, strict=True)] + [(n, v[1]) for n, v in inputs["pars"] if v[0] == "plain"]
+    point += extra_point
     c_point = clist(f"({cn(n)}, {cq(q)})" for n, q in point)
     c_rates = clist(f"({cn(n)}, {cq(q)})" for (n, _), q in zip(rates, rv, strict=True))
     if any(abs(q) >= BIG for _, q in inputs["pv"]):
@@ -524,7 +632,18 @@ def corr_file(cases: list[str]) -> str:
 # ---------------------------------------------------------------------------------------
 
 
-FAMILIES = ["robertson", "chain", "michaelis-menten", "moiety", "network"]
+FAMILIES = ["robertson", "chain", "michaelis-menten", "moiety", "network", "surrogate-output", "surrogate-flux"]
+SURROGATE_FAMILIES = ("surrogate-output", "surrogate-flux")
+
+
+def _s_activation(x, ka):
+    # saturating activation by x (quasi-steady-state surrogate with one output)
+    return (x / (ka + x),)
+
+
+def _s_uptake(x, k):
+    # a surrogate flux: first-order uptake of x
+    return (k * x,)
 
 
 def kinetic_model(family: str, rng):
@@ -564,6 +683,32 @@ def kinetic_model(family: str, rng):
         m.add_parameters({"n0011": 3.0, "n0012": rng.choice([0.5, 20.0]), "n0013": 1.5})
         m.add_derived("n0031", fn=fns.moiety_1s, args=["n0001", "n0011"])
         m.add_reaction("n0041", fn=fns.mass_action_1s_1p, args=["n0001", "n0031", "n0012", "n0013"], stoichiometry={"n0001": -1})
+    elif family == "surrogate-output":
+        # the OUTPUT of a surrogate (it depends on the state) is an argument of an ordinary reaction or of a
+        # derived value a reaction uses: no symbolic form
+        from mxlpy.surrogates import qss
+        from mxlpy.surrogates.abstract import MockSurrogate
+
+        m.add_variables({"n0001": 1.0, "n0002": 0.4})
+        m.add_parameters({"n0011": rng.choice([0.8, 40.0]), "n0012": rng.choice([1.3, 300.0]), "n0013": 0.5})
+        m.add_reaction("n0041", fn=fns.mass_action_1s, args=["n0001", "n0011"], stoichiometry={"n0001": -1, "n0002": 1})
+        kw = {"args": ["n0001", "n0013"], "outputs": ["n0031"]}
+        m.add_surrogate("n0051", qss.Surrogate(model=_s_activation, **kw) if rng.random() < 0.5 else MockSurrogate(fn=_s_activation, **kw))
+        if rng.random() < 0.5:
+            m.add_reaction("n0042", fn=fns.mass_action_2s, args=["n0002", "n0031", "n0012"], stoichiometry={"n0002": -1, "n0001": 0.5})
+        else:
+            m.add_derived("n0032", fn=fns.proportional, args=["n0031", "n0012"])
+            m.add_reaction("n0042", fn=fns.mass_action_1s, args=["n0002", "n0032"], stoichiometry={"n0002": -1, "n0001": 0.5})
+    elif family == "surrogate-flux":
+        # the surrogate only contributes a FLUX (an output with a stoichiometry)
+        from mxlpy.surrogates import qss
+        from mxlpy.surrogates.abstract import MockSurrogate
+
+        m.add_variables({"n0001": 1.0, "n0002": 0.0})
+        m.add_parameters({"n0011": rng.choice([0.7, 150.0]), "n0012": rng.choice([0.2, 5.0])})
+        kw = {"args": ["n0001", "n0011"], "outputs": ["n0043"], "stoichiometries": {"n0043": {"n0001": -1.0, "n0002": 1.0}}}
+        m.add_surrogate("n0051", MockSurrogate(fn=_s_uptake, **kw) if rng.random() < 0.5 else qss.Surrogate(model=_s_uptake, **kw))
+        m.add_reaction("n0041", fn=fns.mass_action_1s, args=["n0002", "n0012"], stoichiometry={"n0002": -1})
     else:
         k = rng.randint(3, 5)
         m.add_variables({f"n{i + 1:04d}": float(rng.choice([0.5, 1, 2])) for i in range(k)})
@@ -590,23 +735,54 @@ def sim_compare(family: str, model_seed: int, method: str, t_end: float) -> dict
     from mxlpy.integrators import Scipy
     from mxlpy.symbolic import to_symbolic_model
 
-    out = {"violation": None, "calls": 0, "dev": 0.0, "checked": 0, "skipped": False, "vacuous": False}
+    out = {"violation": None, "calls": 0, "dev": 0.0, "checked": 0, "skipped": False, "vacuous": False, "fell_back": False}
     res: dict[bool, Any] = {}
     jac_bad = None
+    surrogate = family in SURROGATE_FAMILIES
     for uj in (False, True):
         m = kinetic_model(family, random.Random(model_seed))
         try:
-            if uj:
+            if uj and not surrogate:
                 try:
                     to_symbolic_model(m)
                 except Exception as e:  # noqa: BLE001
                     out["violation"] = f"{family}: a model built from the shipped rate-law library is refused by to_symbolic_model ({type(e).__name__}: {str(e)[:100]})"
                     return out
-            sim = Simulator(m, integrator=partial(Scipy, method=method), use_jacobian=uj)
+            if uj and surrogate:
+                # the right-hand side depends on a surrogate: no symbolic form.  Either the conversion raises,
+                # or what it returns has to be right -- equations over the surrogate output as a free constant
+                # are not (their Jacobian misses the output's dependence on the state)
+                try:
+                    sm = to_symbolic_model(m)
+                except Exception:  # noqa: BLE001
+                    sm = None
+                if sm is not None:
+                    import sympy
+
+                    free = sorted({str(v) for e in sm.eqs for v in sympy.sympify(e).free_symbols if v in set(sm.external.values())})
+                    x0 = [float(v) for v in m.get_initial_conditions().values()]
+                    ex = c12_oracle.exact_jacobian(m, 0.0, x0)
+                    num = m.get_args(dict(zip(m.get_variable_names(), x0, strict=True)), time=0.0)
+                    subs = {s_: float(num[str(s_)]) for e in sm.eqs for s_ in sympy.sympify(e).free_symbols}
+                    jv = [[float(v) for v in row] for row in sm.jacobian().subs(subs).tolist()]
+                    if not c12_oracle.mat_close(jv, ex, rel=1e-7):
+                        out["violation"] = (
+                            f"{family}: to_symbolic_model converts a model whose right-hand side depends on a surrogate (free symbols {free}, equations "
+                            f"{[str(e) for e in sm.eqs]}): its Jacobian at the initial state is {jv}, the derivative of the numeric right-hand side is {[[float(v) for v in r] for r in ex]}"
+                        )
+                        return out
+            with _WarningCapture() as cap:
+                sim = Simulator(m, integrator=partial(Scipy, method=method), use_jacobian=uj)
+            if uj and surrogate:
+                if sim.integrator.jacobian is None:
+                    out["fell_back"] = True
+                    if not cap.records:
+                        out["violation"] = f"{family}/{method}: Simulator(use_jacobian=True) fell back to running without Jacobian without logging a warning"
+                        return out
             if uj:
                 jf = sim.integrator.jacobian
                 if jf is None:
-                    out["vacuous"] = True
+                    out["vacuous"] = not surrogate
                 else:
 
                     def counted(t, x, _jf=jf, _m=m):
@@ -669,9 +845,11 @@ def run_sims(run: Run, rng, n_models: int, viol: list) -> dict:
                 stats["skipped_failed_integration"] += 1
             if o["vacuous"]:
                 stats["fallback_without_jacobian"] += 1
+            if o.get("fell_back"):
+                stats["surrogate_fallbacks"] = stats.get("surrogate_fallbacks", 0) + 1
             stats["max_scaled_dev"] = max(stats["max_scaled_dev"], o["dev"] if o["dev"] == o["dev"] else 0.0)
             stats["jacobian_calls"][method] = stats["jacobian_calls"].get(method, 0) + o["calls"]
-            run.count_case(("sim", family, method, t_end, model_seed), nontrivial=o["calls"] > 0)
+            run.count_case(("sim", family, method, t_end, model_seed), nontrivial=o["calls"] > 0 or bool(o.get("fell_back")))
             if o["violation"]:
                 viol.append((o["violation"], rep))
     return stats
@@ -699,6 +877,48 @@ def frozen_witness() -> tuple[bool, str]:
     sym = [float(v) for v in f([1.0, 0.5], [m.get_parameter_values()[k] for k in sm.parameters])]
     num = [float(v) for v in m(0.0, [1.0, 0.5])]
     return (not all(c12_oracle.close(a, b) for a, b in zip(sym, num))), f"symbolic {sym} vs numeric {num} at n0003=5"
+
+
+def frozen_sim_witness() -> tuple[bool, str, int]:
+    """The same finding seen through the simulator (history: construct, update a parameter, simulate):
+    Simulator(use_jacobian=True) lambdifies the Jacobian at construction, with the parameter-only computed
+    coefficient twice(n0003) folded to its value then; update_parameter('n0003', ...) changes the numeric
+    right-hand side, the Jacobian handed to the integrator keeps the old coefficient.
+    -> (still failing, description, number of Jacobian calls of the integrator)"""
+    import numpy as np
+    from mxlpy import Derived, Model, Simulator, fns
+    from mxlpy.integrators import Scipy
+
+    m = Model()
+    m.add_variables({"n0001": 1.0, "n0002": 0.5})
+    m.add_parameters({"n0003": 1.0, "n0004": 2.0, "n0005": 3.0})
+    m.add_reaction("n0006", fn=fns.mass_action_1s, args=["n0001", "n0004"],
+                   stoichiometry={"n0001": -1, "n0002": Derived(fn=fns.twice, args=["n0003"])})
+    m.add_reaction("n0007", fn=fns.mass_action_2s, args=["n0002", "n0002", "n0005"], stoichiometry={"n0002": Derived(fn=fns.neg, args=["n0003"])})
+    sim = Simulator(m, integrator=partial(Scipy, method="BDF"), use_jacobian=True)
+    jf = sim.integrator.jacobian
+    if jf is None:
+        return False, "the simulator runs without Jacobian", 0
+    sim.update_parameter("n0003", 5.0)
+    calls = 0
+    first_bad = None
+
+    def counted(t, x, _jf=jf):
+        nonlocal calls, first_bad
+        calls += 1
+        j = _jf(t, x)
+        if first_bad is None:
+            ex = c12_oracle.exact_jacobian(m, float(t), [float(v) for v in x])
+            if not c12_oracle.mat_close(np.asarray(j).tolist(), ex, rel=1e-7):
+                first_bad = (float(t), [float(v) for v in x], np.asarray(j).tolist(), [[float(v) for v in r] for r in ex])
+        return j
+
+    sim.integrator.jacobian = counted
+    sim.simulate(1.0, steps=3)
+    if first_bad is None:
+        return False, f"Jacobian consistent with the right-hand side after update_parameter ({calls} calls)", calls
+    return True, (f"Simulator(use_jacobian=True); update_parameter('n0003', 5.0); simulate: the Jacobian handed to BDF at t={first_bad[0]} "
+                  f"x={first_bad[1]} is {first_bad[2]}, the derivative of the right-hand side is {first_bad[3]}"), calls
 
 
 # ---------------------------------------------------------------------------------------
@@ -737,16 +957,20 @@ def check(run: Run) -> None:
     facts = gen()
     run.coverage["gen_facts"] = facts
     run.rule = (
-        "models: random surrogate-free models over the polynomial function table (harness/fnlib + the polynomial members of "
+        "models: random models over the polynomial function table (harness/fnlib + the polynomial members of "
         "mxlpy.fns), 1-4 variables, 0-4 parameters, 0-5 derived values in chains, 1-5 reactions with dyadic coefficients; first the corpus of minimised past failures (c12_gen.CORPUS); kinds: "
         "plain / derived+reactions+parameters declared in shuffled, reversed and permuted order / assignment-defined parameter "
         "(referenced or not, declared first) / assignment-defined variable / time / computed coefficient (state dependent or "
         "parameter only) / variable without reaction / derived value of a rate / untranslatable function / data / readout / no "
-        "parameters; each observed at an integer state and time, 60% again after Simulator.update_parameters.  A case is "
+        "parameters / SURROGATES (MockSurrogate and surrogates.qss.Surrogate with polynomial predict functions, 1-2 outputs): an output named by a "
+        "reaction, by a derived value, by a computed coefficient; flux-only surrogates; surrogates nothing names; each observed at an integer state and time, 60% again after Simulator.update_parameters.  A case is "
         "non-trivial if the model has >=2 components besides variables and parameters or is refused; distinct by content.  "
         "Simulations: stiff and non-stiff bounded kinetic systems from the shipped rate laws (Robertson, chains with out-of-order "
-        "derived values, Michaelis-Menten, moiety, cyclic networks) with LSODA/BDF/Radau, with and without Jacobian; a simulation "
-        "is non-trivial if the integrator called the Jacobian at least once"
+        "derived values, Michaelis-Menten, moiety, cyclic networks) with LSODA/BDF/Radau, with and without Jacobian, plus two families WITH a "
+        "surrogate (a quasi-steady-state output feeding a reaction directly or through a derived value; a flux-only surrogate) where the conversion has "
+        "to raise, the simulator has to fall back with a warning and give the Jacobian-free trajectories; a simulation "
+        "is non-trivial if the integrator called the Jacobian at least once (surrogate families: if the simulator fell back); finally the history "
+        "construct / update_parameter / simulate on the frozen-coefficient witness (recorded finding)"
     )
     proofs_ok = run.check_proofs(AREA, PROPS)
     run.assumptions += [
@@ -758,6 +982,10 @@ def check(run: Run) -> None:
         "the model takes the ModelCache tables (order, stoich_by_cpds, dyn_stoich_by_cpds, var_names, all_parameter_values) as INPUT; that the cache is what C01/C02/C03 prove it to be is not re-proved here",
         "cache.order being a topological order of the derived values (hypothesis OrderOk of C12_any_declaration_order) is property C02's theorem; 'Resolved env' (every derived value / rate has its function's value) is what C01 proves the numeric model computes",
         "the snapshot's dynamic-coefficient statement (fact DynListTimesRate) is modelled on non-Integer rate expressions only; the Integer-rate branch (list repetition, unsubstituted body) is demonstrated on the code by the corpus witness, not modelled",
+        "surrogates: the conversion reads only their NAMES (get_surrogate_output_names, the flux names in the cache tables); that a surrogate output has the value its predict function gives is "
+        "checked per generated case inside Coq (FnTab.surr_ok) and enters the theorems only where a Jacobian is shown to be WRONG (SurrResolved in C12_surrogate_merged_table_refuted); "
+        "neural-network surrogates (torch/keras/equinox) are not generated -- the conversion cannot tell them apart from MockSurrogate",
+        "an unbound name in the lambdified Jacobian function (model outcome ErrName) stands for 'the entry stays a SymPy expression' (lambdify keeps free symbols in the namespace); observed as a non-numeric matrix entry",
         "polynomial fragment over Q; rational rate laws (Michaelis-Menten, div) are covered by the oracle and the simulations only; floating point is outside the model",
         "scipy.integrate (solve_ivp LSODA/BDF/Radau) is exercised, not modelled: trajectory agreement is validation with tolerance 1e-4 relative (solver rtol=atol=1e-8)",
         "correspondence harness: literal printer, exactness guard |v| < 2^20, coqc output parser",
@@ -791,9 +1019,9 @@ def check(run: Run) -> None:
         finally:
             signal.setitimer(signal.ITIMER_REAL, 0)
         kinds[desc["kind"]] = kinds.get(desc["kind"], 0) + 1
-        okind = obs["sym"][0] if obs["sym"][0] in ("ok", "stray") else obs["sym"][1]
+        okind = obs["sym"][0] if obs["sym"][0] in ("ok", "stray", "external") else obs["sym"][1]
         outcomes[okind] = outcomes.get(okind, 0) + 1
-        ck = obs["clo"][0] if obs["clo"][0] in ("mat", "nojac") else obs["clo"][1]
+        ck = obs["clo"][0] if obs["clo"][0] in ("mat", "nojac", "symbolic") else obs["clo"][1]
         clo_outcomes[ck] = clo_outcomes.get(ck, 0) + 1
         n_comp = len(desc["der"]) + len(desc["rxn"])
         run.count_case((rep["desc"], t, x, rep["p2"]), nontrivial=n_comp >= 2 or obs["sym"][0] != "ok")
@@ -821,11 +1049,13 @@ def check(run: Run) -> None:
                 coq_meta.append({"rep": rep, "stage": "after update_parameters", "sym": str(u["sym"])[:200], "clo": str(u["clo"])[:200]})
 
     # simulations
-    sim_stats = run_sims(run, rng, 40 if thorough else 10, viol)
+    sim_stats = run_sims(run, rng, 42 if thorough else 14, viol)
     run.coverage["simulations"] = sim_stats
     for method in ("BDF", "Radau"):
         if sim_stats["runs"] and not sim_stats["jacobian_calls"].get(method) and not viol:
             run.broken_correspondence.append(f"no {method} simulation called the Jacobian: the with/without comparison is vacuous")
+    if sim_stats["runs"] and not sim_stats.get("surrogate_fallbacks") and not viol:
+        run.broken_correspondence.append("no simulation of a model with a surrogate fell back to running without Jacobian: the fallback comparison is vacuous")
     if sim_stats["fallback_without_jacobian"] and not viol:
         run.broken_correspondence.append("a convertible shipped-library model was simulated without Jacobian although use_jacobian=True (lambdify/closure construction failed)")
 
@@ -868,6 +1098,22 @@ def check(run: Run) -> None:
         pass
     if known_hits and "frozen-computed-coefficient" not in kf:
         viol.append((known_hits[0], {"kind": "frozen"}))
+    # ... and through the simulator: construct, update_parameter, simulate
+    signal.setitimer(signal.ITIMER_REAL, 120.0)
+    try:
+        still_sim, what_sim, calls_sim = frozen_sim_witness()
+    except _Timeout:
+        still_sim, what_sim, calls_sim = False, "no answer within 120 s", 0
+        viol.append(("the construct / update_parameter / simulate history of the frozen-coefficient witness gave no answer within 120 s", {"kind": "frozen-sim"}))
+    finally:
+        signal.setitimer(signal.ITIMER_REAL, 0)
+    run.coverage["frozen_coefficient_simulator_history"] = {"still_failing": still_sim, "jacobian_calls": calls_sim}
+    run.count_case(("frozen-sim",), nontrivial=calls_sim > 0)
+    if still_sim:
+        if "frozen-computed-coefficient" in kf:
+            run.known("frozen-computed-coefficient", "seen through the simulator: " + what_sim)
+        else:
+            viol.append((what_sim, {"kind": "frozen-sim"}))
     run.coverage["known_finding_hits_in_generated_cases"] = len(known_hits)
 
     for what_, rep in viol[:6]:
@@ -908,6 +1154,10 @@ def replay(rep: dict) -> int:
         return 1 if o["violation"] else 0
     if r.get("kind") == "frozen":
         still, what = frozen_witness()
+        print(what)
+        return 1 if still else 0
+    if r.get("kind") == "frozen-sim":
+        still, what, _ = frozen_sim_witness()
         print(what)
         return 1 if still else 0
     print("nothing to replay: ", rep.get("what"))
